@@ -164,6 +164,128 @@ theorem c11_methods : Gen.Locks.methods.map (·.1) =
     [c!"Close", c!"List", c!"Forward", c!"AddHardCert", c!"Sign", c!"SignWithFlags", c!"Add", c!"Remove",
      c!"RemoveAll", c!"Lock", c!"Unlock", c!"Signers", c!"Extension"] := by decide
 
+/-! ### every operation completes (in the lock model: no operation can be blocked for ever) -/
+
+/-- scheduling steps a thread still needs -/
+def threadWork (t : Thread) : Nat := match t.phase with
+  | .waiting => t.method.accesses.length + 2
+  | .running k => t.method.accesses.length + 1 - k
+  | .finished => 0
+
+def work (s : Sys) : Nat := (s.map threadWork).sum
+
+theorem sum_set_lt (l : List Nat) (i : Nat) (a b : Nat) (hi : l[i]? = some a) (hb : b < a) :
+    (l.set i b).sum < l.sum := by
+  induction l generalizing i with
+  | nil => simp at hi
+  | cons x r ih =>
+    cases i with
+    | zero => simp at hi; subst hi; simp; omega
+    | succ n =>
+      simp only [List.getElem?_cons_succ] at hi
+      have := ih n hi
+      simp only [List.set_cons_succ, List.sum_cons]; omega
+
+theorem work_set_lt (s : Sys) (i : Nat) (t t' : Thread) (hi : s[i]? = some t) (hw : threadWork t' < threadWork t) :
+    work (s.set i t') < work s := by
+  unfold work
+  rw [List.map_set]
+  exact sum_set_lt _ i (threadWork t) (threadWork t') (by simp [hi]) hw
+
+/-- **Progress.**  In every state in which some operation has not finished, some thread can take a
+    step that brings the system strictly closer to completion: no reachable state is a deadlock,
+    and a fair schedule finishes every operation within `work s` steps.  (The model releases the
+    lock when the body ends — `c11_discipline` checks in the regenerated method table that every
+    method that takes the lock releases it by `defer`.) -/
+theorem c11_progress (s : Sys) (h : ∃ t ∈ s, t.phase ≠ .finished)
+    (hbound : ∀ t ∈ s, ∀ k, t.phase = .running k → k ≤ t.method.accesses.length) :
+    ∃ i, work (stepThread s i) < work s := by
+  by_cases hrun : ∃ (j : Nat) (t : Thread), s[j]? = some t ∧ t.inside = true
+  · -- somebody is inside its body: it can always go on
+    obtain ⟨j, t, hj, hin⟩ := hrun
+    refine ⟨j, ?_⟩
+    unfold stepThread
+    rw [hj]
+    simp only []
+    cases hp : t.phase with
+    | waiting => simp [Thread.inside, hp] at hin
+    | finished => simp [Thread.inside, hp] at hin
+    | running k =>
+      simp only []
+      have hk := hbound t (List.mem_of_getElem? hj) k hp
+      split
+      · apply work_set_lt s j t _ hj
+        simp only [threadWork, hp]; omega
+      · apply work_set_lt s j t _ hj
+        simp only [threadWork, hp]; omega
+  · -- nobody is inside: nobody holds the lock, so any waiting thread may enter
+    obtain ⟨t, ht, hnf⟩ := h
+    obtain ⟨j, hj⟩ := List.mem_iff_getElem?.mp ht
+    have hnone : ∀ u ∈ s, u.inside = false := by
+      intro u hu
+      obtain ⟨m, hm⟩ := List.mem_iff_getElem?.mp hu
+      cases hi : u.inside with
+      | false => rfl
+      | true => exact absurd ⟨m, u, hm, hi⟩ hrun
+    have hwait : t.phase = .waiting := by
+      cases hp : t.phase with
+      | waiting => rfl
+      | finished => exact absurd hp hnf
+      | running k => have := hnone t ht; simp [Thread.inside, hp] at this
+    have hcan : canEnter s t.method = true := by
+      unfold canEnter
+      cases t.method.mode with
+      | none => rfl
+      | some m =>
+        cases m <;> simp only [List.all_eq_true] <;> intro u hu <;>
+          simp [Thread.holdsAny, Thread.holdsExcl, Thread.holdsShared, hnone u hu]
+    refine ⟨j, ?_⟩
+    unfold stepThread
+    rw [hj]
+    simp only [hwait, hcan, ↓reduceIte]
+    apply work_set_lt s j t _ hj
+    simp only [threadWork, hwait]; omega
+
+/-- the side condition of `c11_progress` holds in every reachable state -/
+def Bounded (s : Sys) : Prop := ∀ t ∈ s, ∀ k, t.phase = .running k → k ≤ t.method.accesses.length
+
+theorem bounded_step (s : Sys) (i : Nat) (h : Bounded s) : Bounded (stepThread s i) := by
+  unfold stepThread
+  cases hi : s[i]? with
+  | none => exact h
+  | some t =>
+    simp only []
+    have hset : ∀ t', (∀ k, t'.phase = .running k → k ≤ t'.method.accesses.length) → Bounded (s.set i t') := by
+      intro t' ht' u hu k hk
+      rcases List.mem_or_eq_of_mem_set hu with hu | rfl
+      · exact h u hu k hk
+      · exact ht' k hk
+    cases hp : t.phase with
+    | waiting =>
+      simp only []
+      split
+      · exact hset _ (by intro k hk; simp at hk; omega)
+      · exact h
+    | finished => exact h
+    | running k0 =>
+      simp only []
+      split
+      · rename_i hlt
+        exact hset _ (by intro k hk; simp only [Phase.running.injEq] at hk; subst hk; exact hlt)
+      · exact hset _ (by intro k hk; simp at hk)
+
+theorem bounded_run (s : Sys) (sched : List Nat) (h : Bounded s) : Bounded (run s sched) := by
+  induction sched generalizing s with
+  | nil => exact h
+  | cons i r ih => exact ih _ (bounded_step s i h)
+
+/-- … so: from a state in which no operation has started, after any schedule, if something is
+    unfinished then some thread can make progress. -/
+theorem c11_no_deadlock (s0 : Sys) (sched : List Nat) (h0 : ∀ t ∈ s0, t.phase = .waiting)
+    (h : ∃ t ∈ run s0 sched, t.phase ≠ .finished) :
+    ∃ i, work (stepThread (run s0 sched) i) < work (run s0 sched) :=
+  c11_progress _ h (bounded_run s0 sched (fun t ht k hk => by rw [h0 t ht] at hk; cases hk))
+
 /-- Non-vacuity: two writers and a reader under some schedule; both writers never run together. -/
 example :
     let w : Method := ⟨some .excl, [.write 0, .write 3]⟩
